@@ -8,6 +8,8 @@ from .. import paths
 from ..core import FUNC, call_attr, calls_in, const, dotted, is_const, kwarg, norm, text, walk_local
 
 EXPLANATION = [
+    'C12.mtu-agreement: both ends adopt min(what this side announced, what the peer announced) as ATT_MTU (same rule as C10.mtu-agreement): long reads continue exactly where the first response ended and values are truncated to the MTU the client computed.',
+    'C12.late-binding: no closure that is created inside a loop and kept (a sink, an event listener, a callback) reads the loop\'s variables freely; values are bound per iteration (default argument or functools.partial), so each bearer\'s callback serves its own bearer.',
     'C12.indication-slot: indications are built in one place, sent under the per-bearer semaphore, and the pending-confirmation slot is cleared in `finally` (same rule as C10.indication-slot): one lost confirmation cannot stop later indications.',
     'C12.include-agreement: the include declaration written by the server (<HH included-service handle, end group handle, then a 16-bit UUID only) is read back by the client with the same layout; the proxy range is those two fields and a UUID absent from the declaration is read from the included service\'s own declaration (the first field), as Vol 3 Part G 4.5.1 prescribes.',
     'C12.uuid-wire: in gatt/gatt_client/gatt_server a UUID is never serialised with bytes(uuid) for a PDU; every site uses to_pdu_bytes(), which expands 32-bit UUIDs.',
@@ -511,7 +513,19 @@ def uuid_wire(ctx):
     R.check(tb is not None and 'force_128=len(self.uuid_bytes) == 4' in norm(tb).replace('(len(self.uuid_bytes) == 4)', 'len(self.uuid_bytes) == 4'), rule, 'bumble.core.UUID.to_pdu_bytes', '32-bit UUIDs are expanded to 128 bits', 'to_pdu_bytes no longer expands 32-bit UUIDs', p.loc(tb) if tb else '')
 
 
+def late_binding_rule(ctx):
+    from ..late_binding import late_binding
+    late_binding(ctx, 'C12.late-binding', ['bumble.gatt_client', 'bumble.gatt_server', 'bumble.gatt', 'bumble.att'])
+
+
+def mtu_agreement_rule(ctx):
+    from . import c10
+    c10.mtu_agreement(ctx, rule='C12.mtu-agreement')
+
+
 RULES = [
+    ('C12.mtu-agreement', mtu_agreement_rule),
+    ('C12.late-binding', late_binding_rule),
     ('C12.indication-slot', indication_slot),
     ('C12.uuid-wire', uuid_wire),
     ('C12.include-agreement', include_agreement),
